@@ -183,7 +183,7 @@ pub fn run_case(c: &Case) -> (String, Vec<String>) {
     let _h = s.allocate_receiver_link("r", false).unwrap();
     s.on_incoming_attach("r", PEER_HANDLE, false, false).unwrap();
     // ... and a sending link (the peer's receiving end under PEER_SND_HANDLE) for flows that carry link state
-    let _hs = s.allocate_sender_link("s").unwrap();
+    let hs = s.allocate_sender_link("s").unwrap();
     s.on_incoming_attach("s", PEER_SND_HANDLE, true, false).unwrap();
 
     // ---- direct oracle state (specification side, independent of the model) ----
@@ -324,6 +324,16 @@ pub fn run_case(c: &Case) -> (String, Vec<String>) {
         }
         let fs: Vec<String> = frames.iter().map(frame_str).collect();
         trace.push_str(&fs.join(" , "));
+        if let Ev::FL(_, _, _, _, _dc, cr, drain, _) = e {
+            // the state of the sending link after a flow that carries link state (model: SenderCredit.snd_on_incoming_flow)
+            if let Some((ldc, lcr, ldr)) = s.sender_link_counters(hs) {
+                trace.push_str(&format!(" L({},{},{})", ldc, lcr, b(ldr)));
+                // the receiver's latest flow is the limit: a flow that names no credit (or takes it back to zero) leaves none
+                if *cr == Some(0) && !*drain && lcr != 0 {
+                    viol.push(format!("link-credit-not-revoked: the flow set link-credit 0, the sending link still holds {}", lcr));
+                }
+            }
+        }
         trace.push_str(&format!(
             " # noi={} nii={} riw={} row={} nfc={} buf={} dmap={} ; ",
             k.next_outgoing_id,
@@ -479,6 +489,7 @@ pub fn run(seed: u64, n: u64, thorough: bool, corpus: &[String], dir: &str) {
                 "delivery-id" => "c11-delivery-id".to_string(),
                 // the answer to a drain / echo request is the sending link's business (C08), although the session writes it
                 "link-flow-unanswered" => "c08-link-flow-unanswered".to_string(),
+                "link-credit-not-revoked" => "c08-link-credit-not-revoked".to_string(),
                 _ => format!("c07-{}", class),
             };
             out.violation(&class, &v, &line);
